@@ -1,9 +1,108 @@
 import PyamgV.Driver.Util
-/-! Driver ops for property C15 (line protocol). Op names are prefixed `c15_`. -/
+import PyamgV.Model.C15Solve
+import PyamgV.Model.C15Store
+/-! Driver ops for property C15 (line protocol). Op names are prefixed `c15_`.
+
+* `c15_kind <name>`: `coarse_grid_solver` dispatch; reply `direct` / `stateless` / `error`
+* `c15_cache <name> <history>`: `grun` on an abstract history of calls on one coarse-solver object.
+  The history is a comma-separated list of matrix ids (id 0 = a matrix without stored entries); call
+  number `i` passes the vector `b<i>`.  Instance: `factor = id`, `apply f b = S<f>:<b>`,
+  `direct m b = D<m>:<b>`, `zero b = Z`.  Reply: `result/state` per call (state `n` = nothing cached,
+  otherwise the id of the matrix whose factors are cached), then `;` and `gcount`.
+* `c15_trace <name> <levels> <nnz> <lazy> <calls>`: `runCalls` on a hierarchy with `<levels>` levels whose
+  coarsest matrix has `<nnz>` (0/1) stored entries; `<calls>` = comma-separated `cycle:cpl:passes:mode`
+  (mode `l` = the un-accelerated loop, `a` = an accelerated call that made that many passes).
+  Vectors are call counters (`countLvl`): the number of coarse-solver calls of a call is read off its
+  result.  `<lazy>` = 1: the smoothers of level 0 fetch their parameters through a memo cell
+  (`strength_based_schwarz`).  Reply per call: `coarse-solver calls:factorisations:cached factors:memo
+  cell`, or `error` (unknown solver name) / `TypeError` for a call with an unrecognised cycle on >= 3
+  levels (the call and everything after it is not run).
+* `c15_store <ctor> <fmt> <dtype> <filter 0/1> <nlevels>`: the store model of the constructor prologue;
+  reply `alias|copy;writes-to-user 0/1;filter targets;user-layout-at-risk 0/1` (see `Model/C15Store.lean`). -/
 namespace PyamgV.Drv.C15
-open PyamgV PyamgV.Drv
+open PyamgV PyamgV.Drv PyamgV.C15
+
+def symOps : Ops Nat String Nat :=
+  { nnz := fun m => m, factor := fun m => m,
+    apply := fun f b => s!"S{f}:{b}", direct := fun m b => s!"D{m}:{b}", zero := fun _ => "Z" }
+
+def showState : Option Nat → String
+  | none => "n"
+  | some f => toString f
+
+/-- `grun`, also reporting the state after every call (same `gcall`) -/
+def cacheSteps (k : Kind) : Option Nat → Nat → List Nat → List String
+  | _, _, [] => []
+  | c, i, m :: rest =>
+    let r := gcall symOps k c m s!"b{i}"
+    s!"{r.2}/{showState r.1}" :: cacheSteps k r.1 (i + 1) rest
+
+/-- a level that only forwards a call counter: vectors are numbers, every coarse-solver call adds 1 to
+the "iterate" that travels through the recursion exactly like `x` / `coarse_x` do -/
+def countLvl : Lvl Nat Nat :=
+  { pre := fun x _ => x, post := fun x _ => x, coarseRhs := fun x _ => x, zeros := fun cb => cb,
+    prolong := fun _ cx => cx, amliStart := fun cb => cb, amliGuess := fun _ a => (a, a),
+    amliUpdate := fun _ _ v => v, amliOut := fun a => a }
+
+def countOps (nnz : Nat) : Ops Unit Nat Nat :=
+  { nnz := fun _ => nnz, factor := fun _ => 1, apply := fun _ b => b + 1, direct := fun _ b => b + 1,
+    zero := fun b => b + 1 }
+
+abbrev TS := Option Nat × Option Nat   -- (cached factors, lazily cached smoother parameters of level 0)
+
+/-- `levels - 1` non-coarsest levels; with `lazy` the smoothers of level 0 fetch their parameters through
+a memo cell (`strength_based_schwarz`), all others are state-free -/
+def traceLevels (levels : Nat) (lazy : Bool) : List (LvlS TS Nat Nat) :=
+  match levels - 1 with
+  | 0 => []
+  | m + 1 =>
+    (if lazy then memoLevel (Fact := Nat) countLvl (fun (_ : Unit) => (1 : Nat)) () (fun _ x _ => x)
+     else LvlS.ofPure countLvl) :: List.replicate m (LvlS.ofPure countLvl)
+
+def parseCall (levels : Nat) (s : String) : Option (Option (Call Nat (Nat × Nat))) :=
+  match s.splitOn ":" with
+  | [c, cpl, n, mode] => do
+    let cpl ← cpl.toNat?
+    let n ← n.toNat?
+    let mk := if mode = "a" then accelCall (Vec := Nat) (Res := Nat × Nat) else plainCall
+    let prog := loopProg (fun _ => false) (fun x it => (x, it)) 0 n 0 0
+    match cycOf c with
+    | some cy => some (some (mk cy cpl prog))
+    | none =>
+      -- `lvl == len(levels) - 2` is tested before the cycle name: no error with <= 2 levels
+      if levels ≤ 2 then some (some (mk .V cpl prog)) else some none
+  | _ => none
+
+def traceCalls (k : Kind) (nnz levels : Nat) (Ls : List (LvlS TS Nat Nat)) :
+    TS → List (Option (Call Nat (Nat × Nat))) → List String
+  | _, [] => []
+  | _, none :: _ => ["TypeError"]
+  | s, some c :: rest =>
+    let r := runCalls (gcallFst (T := Option Nat) (countOps nnz) k ()) Ls s [c]
+    let res := (r.2.headD (0, 0))
+    let ncoarse := if levels ≤ 1 then res.2 else res.1
+    let nfact := if s.1.isNone && r.1.1.isSome then 1 else 0
+    s!"{ncoarse}:{nfact}:{showState r.1.1}:{showState r.1.2}" :: traceCalls k nnz levels Ls r.1 rest
 
 def handle : List String → Option String
+  | ["c15_kind", name] =>
+    some (match kindOf name with | some .direct => "direct" | some .stateless => "stateless" | none => "error")
+  | ["c15_cache", name, hist] =>
+    match kindOf name with
+    | none => some "error"
+    | some k =>
+      let ms := (parseNats hist).toList
+      let pairs := (List.range ms.length).zip ms |>.map (fun (i, m) => (m, s!"b{i}"))
+      some (sh (cacheSteps k none 0 ms) ++ ";" ++ toString (gcount symOps k none pairs))
+  | ["c15_trace", name, levels, nnz, lazy, calls] =>
+    match kindOf name with
+    | none => some "error"
+    | some k =>
+      let L := nat levels
+      match (listOf calls).mapM (parseCall L) with
+      | none => some "parse-error"
+      | some cs => some (sh (traceCalls k (nat nnz) L (traceLevels L (lazy = "1")) (none, none) cs))
+  | ["c15_store", ctor, fmt, dtype, filt, nlev] => some (Store.reply ctor fmt dtype (nat filt) (nat nlev))
   | _ => none
 
 end PyamgV.Drv.C15
